@@ -95,11 +95,20 @@ def r1(ctx):
     # ---- max-pool
     fn = ctx.fn("maxpool::Maxpool::forward")
     ex = mac.extract(c, fn)
-    vals = [s_ for s_ in ex.local_stmts if s_.target[2] == "value" and s_.reads]
-    idxs = [s_ for s_ in ex.local_stmts if s_.target[2] == "index"]
+    # the running maximum is the mutable scalar that is finally stored into the f32 output buffer
+    stores = [s_ for s_ in ex.stmts if s_.op == "=" and isinstance(s_.target, Access) and len(s_.target.idx) == 3 and not s_.reads
+              and len(s_.rhs.atoms()) == 1 and "#" in list(s_.rhs.atoms())[0]]
+    vh = None
+    for s_ in stores:
+        h_ = int(list(s_.rhs.atoms())[0].split("#")[1])
+        if h_ in ex.acc_init and str(ex.acc_init[h_]) not in ("tup(0, 0)",):
+            vh = h_
+    vals = [s_ for s_ in ex.local_stmts if s_.target[1] == vh and s_.reads]
+    idxs = [s_ for s_ in ex.local_stmts if s_.target[1] != vh and str(s_.rhs).startswith("tup(") and vals and [str(g) for g in s_.guards] == [str(g) for g in vals[0].guards]]
     if len(vals) != 1 or len(idxs) != 1:
         raise Unestablished("Maxpool::forward: running maximum not found", c.loc(fn))
     v = vals[0]
+    vname = v.target[2]
     where = c.loc(fn, v.node)
     rd = list(v.reads.values())
     loops = {l[1]: l for l in v.loops}
@@ -112,12 +121,12 @@ def r1(ctx):
         kdom = str(v.loops[3][3]) == "self.kernel.0" and str(v.loops[4][3]) == "self.kernel.1"
         okr = okr and kdom
     ctx.check("R02.1", "maxpool:window", okr, "window:" + (repr(rd[0]) if rd else "?"), where, "window element x[c][h+k][w+l], k < kernel.0, l < kernel.1")
-    strict = [g for g in v.guards if str(g).startswith("gt0(") and "value#" in str(g)]
+    strict = [g for g in v.guards if str(g).startswith("gt0(") and (vname + "#") in str(g)]
     acc_atom = [a for a, r_ in v.reads.items()]
     ok_strict = len(strict) == 1
     if ok_strict:
         hid = v.target[1]
-        ok_strict = str(strict[0]) == e1.cmp_atom("Gt", Rat.atom(acc_atom[0]), Rat.atom("value#%d" % hid))
+        ok_strict = str(strict[0]) == e1.cmp_atom("Gt", Rat.atom(acc_atom[0]), Rat.atom("%s#%d" % (vname, hid)))
     ctx.check("R02.1", "maxpool:strict-running-maximum", ok_strict and str(ex.acc_init.get(v.target[1])).endswith("::MIN"), "max-update:" + ";".join(str(g) for g in v.guards)[:100], where,
               "value updated iff x > value, starting from f32::MIN", "update guards %s, initial %s" % ([str(g) for g in v.guards], ex.acc_init.get(v.target[1])))
     i = idxs[0]
